@@ -22,9 +22,13 @@ func Harness_C18_C28_codec() {
 		"(*github.com/honeycombio/refinery/internal/peer.peerCommand).marshal")
 	zz.Bound("address_len", 3)
 	zz.Bound("id_len", 2)
-	zz.Bound("message_len", 4)
+	deeper := 0
+	if zz.Thorough() {
+		deeper = 2 // addresses up to 5 bytes, messages up to 6
+	}
+	zz.Bound("message_len", 4+deeper)
 	if zz.NondetBool("arbitraryMessage") {
-		msg := zz.NondetString("msg", 4)
+		msg := zz.NondetString("msg", 4+deeper)
 		c := &peerCommand{}
 		ok := c.unmarshal(msg)
 		zz.Observe("parsed", ok)
@@ -33,7 +37,7 @@ func Harness_C18_C28_codec() {
 		}
 		return
 	}
-	addr := zz.NondetString("address", 3)
+	addr := zz.NondetString("address", 3+deeper)
 	id := zz.NondetStringN("id", 2)
 	zz.Assume(id[0] != ',')
 	zz.Assume(id[1] != ',')
